@@ -25,7 +25,7 @@ mod verif_ff3 {
     fn ff3_jac_gate() {
         let i: u32 = kani::any();
         let u: u32 = kani::any();
-        kani::assume(i <= u && 1 <= u && u < (1 << 20));
+        kani::assume(i <= u && 1 <= u && u < (1 << 22));
         let sim = (i as usize) as f64 / (u as usize) as f64;
         let dist = 1.0 - sim;
         let pass = dist < JACCARD_THRESHOLD;
